@@ -529,6 +529,9 @@ impl Blob {
 //@ hint after 1/1 /Err\(error\) => return Err\(error\),\s*\}/
             proof {
                 assert(resolutions@ =~= res0.push(resolutions@[i as int]));
+                assert forall|k: int| 0 <= k < remembered_tickets.tickets().len() implies (#[trigger] remembered_tickets.tickets()[k]).len() == 32 by {
+                    assert(remembered_tickets.tickets()[k] == remembered_tickets.infos@[k].ticket.bytes());
+                }
                 rrv_step(*old(w), w_i, *w, *self, remembered_tickets.tickets(), res0, resolutions@[i as int], i as int);
             }
 //@ end
@@ -573,6 +576,7 @@ proof fn rrv_init(w0: World, b: Blob, rr: Seq<Seq<u8>>)
 proof fn rrv_step(w0: World, wi: World, wn: World, b: Blob, rr: Seq<Seq<u8>>, rs: Seq<FileResolution>, x: FileResolution, i: int)
     requires b.wf(w0), rrv_inv(w0, wi, b, rr, rs, i), i < b.file_infos@.len(),
         single_post(wi, wn, b.file_infos@[i].path@, rr[i], x),
+        forall|k: int| 0 <= k < rr.len() ==> (#[trigger] rr[k]).len() == 32,
     ensures rrv_inv(w0, wn, b, rr, rs.push(x), i + 1)
 {
     let n = b.file_infos@.len() as int;
